@@ -394,7 +394,8 @@ EigOut auditEigen(vrt::Case& c, const Spec& sp)
   const Dense& A = sp.A;
   const size_t n = A.r;
   const bool symIn = exactlySymmetric(A);
-  const string cls = sp.gen + "," + (symIn ? "symmetric" : "non-symmetric") + "," + nClass(n);
+  // violation classes stay structural (algorithm branch, size class): one defect gives a handful of signatures whatever the generator
+  const string cls = string(symIn ? "symmetric" : "non-symmetric") + "," + nClass(n);
   const int kA = static_cast<int>(c.rng.below(3));
   const string head = "A(" + string(1, KN[kA]) + ")=" + dump(A);
   unique_ptr<Matrix<double>> mA = fromDense(kA, A);
@@ -928,7 +929,7 @@ void caseFunctions(vrt::Case& c)
   LD minAbs = fabsl(lam[0]);
   for (LD x : lam) minAbs = min(minAbs, fabsl(x));
   vrt::describe(gen + ":n=" + str(n), "kappa(S)=" + numL(kappa) + " A=" + dump(A));
-  const string cls = gen + "," + nClass(n);
+  const string cls = string(symIn ? "symmetric" : "non-symmetric") + "," + nClass(n);
 
   // condition number of the eigenvector matrix the library works with (a-posteriori)
   int kA = static_cast<int>(c.rng.below(3));
